@@ -368,6 +368,23 @@ def main(pid="C09"):
                     continue
                 rep.violation({"layer": "component", "entry": "uninterpretable"},
                               "%s list entry %r cannot be interpreted but construction succeeded" % (which, entry), None)
+        # scoped list entries ("fe80::1%3"): either such an entry cannot be interpreted (start-up refused), or it contains exactly
+        # the address on THAT link - what it may not do is to be accepted and then match the address on every link
+        for entry, same, other in (("fe80::1%3", "fe80::1%3", "fe80::1%7"), ("fe80::1%eth0", "fe80::1%eth0", "fe80::1%eth1"),
+                                   ("fe80::%2/64", "fe80::9%2", "fe80::9%5")):
+            for which in ("allow", "deny"):
+                rep.add("evaluations")
+                try:
+                    AccessControl(AccessControlConfig(allow_list=[entry] if which == "allow" else None,
+                                                      deny_list=[entry] if which == "deny" else None, default_allow=(which == "deny")))
+                except ValueError:
+                    continue
+                got_other = decide_component([entry] if which == "allow" else None, [entry] if which == "deny" else None, which == "deny", other)
+                want_other = "refuse53" if which == "allow" else "admit"
+                if got_other != want_other:
+                    rep.violation({"layer": "component", "entry": "scoped"},
+                                  "%s list entry %r was accepted at construction, and the peer %s - the same address on ANOTHER link, which the entry does not contain - is %s (property: %s); an entry that cannot be honoured must prevent start-up" % (
+                                      which, entry, other, got_other, want_other), None)
         # addresses that embed another address (IPv4-mapped, 6to4): the peer is the address the socket reports, an IPv6 one;
         # expected decisions by integer arithmetic per family, through the assembled server (the protocol hands the address on)
         import ipaddress as _ip
